@@ -278,9 +278,15 @@ def run_batch(ctx, exe, specs, timeout_s=20):
 def enclosing_function(where):
     """file:line -> name of the C function whose body contains the line (definitions start in column 0)"""
     m = re.match(r"(.+):(\d+)", where)
-    if not m or not os.path.exists(m.group(1)):
+    if not m:
         return None
-    lines = open(m.group(1), errors="replace").read().splitlines()
+    path = m.group(1)
+    if not os.path.exists(path) and "/src/" in path:
+        # the cached library may have been compiled from another checkout of the same tree content
+        path = str(REPO / "src" / path.split("/src/", 1)[1])
+    if not os.path.exists(path):
+        return None
+    lines = open(path, errors="replace").read().splitlines()
     for i in range(min(int(m.group(2)), len(lines)) - 1, -1, -1):
         mm = re.match(r"^[A-Za-z_][\w\s\*]*?\b(\w+)\s*\([^;]*$", lines[i])
         if mm and mm.group(1) not in ("if", "while", "for", "switch", "return"):
@@ -371,7 +377,8 @@ def judge(ctx, run, base, sym, stats):
             b, a = objs(mb.group(1)), objs(mb.group(2))
             for x in b:
                 if x in a: a.remove(x)
-            key = "fd-leak:" + ("+".join(a) or "lost") + ":" + first_failure(run)
+            from collections import Counter as _C
+            key = "fd-leak:" + ("+".join(f"{t}x{n}" if n > 1 else t for t, n in sorted(_C(a).items())) or "lost") + ":" + first_failure(run)
         elif kind in ("alloc-leak", "lsan-leak", "active-reqs", "loop-alive", "loop-close", "stall", "invalid-free"):
             key = kind + ":" + first_failure(run)
         out.append((key, v[:400]))
